@@ -96,6 +96,24 @@ def balance1 (j : Json) : Except String Json := do
   let s ← state1Of (← jObj j "state")
   pure (Json.mkObj [("net_value", ratJ (GmxV1.netValue cx env s)), ("glp", ratJ s.glp), ("reward", ratJ s.reward)])
 
+/-- whole-run fold: `bars = [{env, ops}]`; per bar the operations are applied in order to the threaded state (the harness puts
+    the bar's `update` last, as `Actuator.run` does) and the bar's balance is reported.  `sellFrac` sells `glp × frac`
+    (the strategy multiplies two Decimals, so the product is rounded by the context). -/
+def run1 (j : Json) : Except String Json := do
+  let cx := jCtx j
+  let mut s ← state1Of (← jObj j "state")
+  let mut out : Array Json := #[]
+  for b in (← jArr j "bars") do
+    let env ← envOf (← jObj b "env")
+    for oj in (← jArr b "ops") do
+      let op ← match ← jStr oj "kind" with
+        | "sellFrac" => pure (GmxV1.Op.sell (← jStr oj "tok") (← jNat oj "dec") (cx.mul s.glp (← jRat oj "frac")))
+        | _ => op1Of oj
+      s := (GmxV1.step cx env s op).2
+    out := out.push (Json.mkObj [("glp", ratJ s.glp), ("reward", ratJ s.reward), ("wallet", walletJ s.wallet),
+                                 ("net_value", ratJ (GmxV1.netValue cx env s)), ("actions", natJ s.actions.length)])
+  pure (.arr out)
+
 /-! ### v2, generic in the number type -/
 
 structure NumIO (α : Type) where
@@ -184,6 +202,7 @@ def gmxJHandlers : List (String × JHandler) := [
   ("gmx1.fee", GmxD.fee1),
   ("gmx1.vaultFee", GmxD.vaultFee1),
   ("gmx1.balance", GmxD.balance1),
+  ("gmx1.run", GmxD.run1),
   ("gmx2.step", GmxD.step2Dispatch)
 ]
 
